@@ -173,6 +173,14 @@ def parseMsgLppd : Nat → List String → Option (List MsgLppdPeriod × List St
       some (p :: ps, rest)
   | _, _ => none
 
+def parseOldRew : Nat → List String → Option (List RewardPeriod × List String)
+  | 0, rest => some ([], rest)
+  | n+1, s :: e :: a :: m :: rest => do
+      let p : RewardPeriod := ⟨← parseNat s, ← parseNat e, ← parseOptNat a, ← parseNat m, false, none, []⟩
+      let (ps, rest) ← parseOldRew n rest
+      some (p :: ps, rest)
+  | _, _ => none
+
 /-- the model's verdict and (if it accepts) the hook state after the message -/
 def admModel (kind : String) (c : Ctx) (fields pre : List String) : Option (Bool × String) :=
   match kind, fields with
@@ -195,7 +203,14 @@ def admModel (kind : String) (c : Ctx) (fields pre : List String) : Option (Bool
   | "AddRewardPeriod", n :: rest => do
       let (ps, rest) ← parseMsgRew (← parseNat n) rest
       if !rest.isEmpty then none
-      some (acceptsAddRewardPeriod ⟨ps⟩ c {}, "-")
+      -- pre-state: <accu> <nOld> (<start> <end> <alloc|n> <mod>)*
+      match pre with
+      | accu :: nOld :: prest =>
+        let (old, prest) ← parseOldRew (← parseNat nOld) prest
+        if !prest.isEmpty then none
+        let s : EState := ⟨← parseNat accu, [], old, []⟩
+        some (acceptsAddRewardPeriod ⟨ps⟩ c {}, s!"{(applyAddRewardPeriod ⟨ps⟩ c s).accu}")
+      | _ => none
   | "AddProviderDistributionPeriod", n :: rest => do
       let (ps, rest) ← parseMsgLppd (← parseNat n) rest
       if !rest.isEmpty then none
